@@ -10,7 +10,6 @@ package server
 
 import (
 	"bytes"
-	"context"
 	"fmt"
 	"testing"
 	"time"
@@ -42,9 +41,7 @@ func TestVerifC14BatchWait(t *testing.T) {
 	fails := 0
 	for it := 0; it < n && fails < 3; it++ {
 		name := fmt.Sprintf("c14b%d", it)
-		ctx, cancel := context.WithTimeout(context.Background(), 10*time.Second)
-		_, err := s.api.CreateStream(ctx, &client.CreateStreamRequest{Subject: name, Name: name, ReplicationFactor: 1, Partitions: 1})
-		cancel()
+		err := vCreateStream(s, &client.CreateStreamRequest{Subject: name, Name: name, ReplicationFactor: 1, Partitions: 1})
 		if err != nil {
 			t.Fatalf("create stream: %v", err)
 		}
